@@ -186,6 +186,14 @@ CLAIMED = {
          "verdict on the rendered text is NOT decided.",
     technique="cross-table agreement (factory vs command tables) + CFG post-dominance of require calls + def-use from user values to quoting wrappers",
     ref="4/C06"),
+ "C19": dict(
+    text="Thin: B1 every condition kind the builder instantiates (header, exists, size, envelope, address, body, currentdate) is in the reader's "
+         "class tuple and defines args_as_tuple, and every kind the builder can negate has a folding branch; B2 the read-back functions neither "
+         "decide list-vs-string by the presence of a comma nor split rendered text on commas (4 sites violate this today: recorded known findings "
+         "with witnesses); B3 the getters obtain the filter through getfilter, which unwraps a disabled filter. Equality of supplied and read-back "
+         "values for all definitions is NOT decided.",
+    technique="exhaustiveness cross-check builder vs reader (AST) + lint for lossy re-parsing transformers on the read-back path",
+    ref="4/C19"),
 }
 NA = {}
 
